@@ -121,7 +121,7 @@ func (cms *CountMinSketch) Import(data []byte) error {
 
 // Equals checks if two CountMinSketch are equal
 func (cms *CountMinSketch) Equals(cms1 *CountMinSketch) bool {
-	if cms.rows != cms1.rows && cms.columns != cms1.columns {
+	if cms.rows != cms1.rows || cms.columns != cms1.columns {
 		return false
 	}
 	for i := range cms.matrix {
